@@ -431,7 +431,10 @@ class DungeonModeConstants:
             return self.request_constant
         if idx == 3:
             return self.open_and_request_constant
-        return self.close_constant
+        if idx == 0:
+            return self.close_constant
+        # Not one of the four modes (another number or a constant): keep the value as it is.
+        return str(idx)
 
 
 NUMBER_OF_SPACES_PER_INDENT = 4
